@@ -10,7 +10,7 @@ SO2 = "oxmpl/src/base/spaces/so2_state_space.rs::"
 H = []
 
 
-def h(name, props, kind, scope, claim, functions, known_finding=None, tier="quick", timeout=300, optional=False):
+def h(name, props, kind, scope, claim, functions, known_finding=None, tier="quick", timeout=900, optional=False):
     H.append(dict(name=name, props=props, kind=kind, scope=scope, claim=claim, functions=functions, known_finding=known_finding, tier=tier, timeout=timeout, optional=optional))
 
 
@@ -25,7 +25,8 @@ h("so2_dist_range_identity", ["C09"], "proof", "complete", "0 <= d(a,b) <= PI, n
 h("so2_dist_short_arc", ["C09"], "proof", "complete", "d(a,b) is the short arc |a-b| or 2PI-|a-b| within 2e-15 (independent reference); all canonical a, b", [SO2 + "distance"], tier="thorough", timeout=1200, optional=True)
 h("so2_interp_canonical", ["C10"], "proof", "complete", "interpolate returns an angle in [-PI, PI]; all canonical a, b, all t in [0,1]", [SO2 + "interpolate"])
 h("so2_interp_endpoints", ["C10"], "proof", "complete", "interpolate(a,b,0) is a up to 1e-15 (mod 2 PI); all canonical a, b", [SO2 + "interpolate"], tier="thorough", timeout=1200, optional=True)
-h("so2_interp_convex", ["C04"], "proof", "complete", "premise convex_ok for SO(2): in-bounds a, b, t in [0,1] ==> interpolate(a,b,t) in bounds (1e-9 slack)", [SO2 + "interpolate"], known_finding="KF-C04-so2-short-arc")
+h("so2_interp_convex_witness", ["C04"], "proof", "complete", "premise convex_ok for SO(2) at the concrete witness bounds (-3,3), a=-2.9, b=2.9, t=0.5: the interpolated state satisfies the bounds", [SO2 + "interpolate"], known_finding="KF-C04-so2-short-arc")
+h("so2_interp_convex", ["C04"], "proof", "complete", "premise convex_ok for SO(2): in-bounds a, b, t in [0,1] ==> interpolate(a,b,t) in bounds (1e-9 slack)", [SO2 + "interpolate"], known_finding="KF-C04-so2-short-arc", tier="thorough", timeout=1200, optional=True)
 h("so2_interp_convex_half_circle", ["C04"], "proof", "complete", "premise convex_ok for SO(2) intervals of span <= PI", [SO2 + "interpolate"], tier="thorough", timeout=1200, optional=True)
 
 FL = "f64 operators (Layer 0)"
@@ -46,9 +47,11 @@ h("rv_enforce_then_satisfies_d2", ["C11", "C12"], "proof", B2, "enforce_bounds d
 h("rv_enforce_identity_on_satisfying_d2", ["C11"], "proof", B2, "enforce_bounds leaves a state that satisfies_bounds accepts unchanged", [RV + "enforce_bounds", RV + "satisfies_bounds"], known_finding="KF-C11-rv-epsilon-band")
 h("rv_enforce_identity_inside_box_d2", ["C11"], "proof", B2, "enforce_bounds leaves a state inside the closed box unchanged bit for bit, and satisfies_bounds accepts it", [RV + "enforce_bounds", RV + "satisfies_bounds"])
 h("rv_sample_range_satisfies_d2", ["C11"], "proof", B2, "coordinates in [lo,hi) (random_range contract) satisfy the bounds", [RV + "sample_uniform", RV + "satisfies_bounds"])
-h("rv_distance_d2", ["C09"], "proof", B2 + "; |coordinates| <= 1e150", "distance >= 0, never NaN, symmetric bit for bit, d(a,a) == 0, equals sqrt(sum of squared differences) evaluated left to right (sqrt/powi contract stubs)", [RV + "distance"])
-h("rv_interp_formula_d2", ["C10", "C04"], "proof", B2, "interpolate computes a_i + (b_i - a_i) * t for every coordinate bit for bit; all f64 values", [RV + "interpolate"])
-h("scalar_lerp_monotone", ["C10", "C04"], "proof", "complete", "scalar law: a + (b-a)*0 == a; for t in [0,1] the value lies between a and a + (b-a) (monotone rounding), so a box containing both ends contains the segment up to the rounding of the t = 1 value; all finite |a|,|b| <= 1e150", [RV + "interpolate"], timeout=600)
+h("rv_distance_d1", ["C09"], "proof", "bounded: dimension 1; |coordinates| <= 1e150", "distance >= 0, never NaN, d(a,a) == 0 (sqrt/powi contract stubs)", [RV + "distance"], timeout=900)
+h("scalar_lerp_t0", ["C10", "C04"], "proof", "complete", "scalar law: a + (b - a) * 0.0 == a; all finite |a|,|b| <= 1e150", [RV + "interpolate"])
+h("rv_distance_d2", ["C09"], "proof", B2 + "; |coordinates| <= 1e150", "distance >= 0, never NaN, symmetric bit for bit, d(a,a) == 0, equals sqrt(sum of squared differences) evaluated left to right (sqrt/powi contract stubs)", [RV + "distance"], tier="thorough", timeout=2400, optional=True)
+h("rv_interp_formula_d2", ["C10", "C04"], "proof", B2, "interpolate computes a_i + (b_i - a_i) * t for every coordinate bit for bit; all f64 values", [RV + "interpolate"], tier="thorough", timeout=2400, optional=True)
+h("scalar_lerp_monotone", ["C10", "C04"], "proof", "complete", "scalar law: a + (b-a)*0 == a; for t in [0,1] the value lies between a and a + (b-a) (monotone rounding), so a box containing both ends contains the segment up to the rounding of the t = 1 value; all finite |a|,|b| <= 1e150", [RV + "interpolate"], tier="thorough", timeout=2400, optional=True)
 h("so3_new_contract", ["C12"], "proof", "complete", "SO3StateSpace::new: Ok ==> 0 <= stored radius <= PI (never NaN); Err <==> radius < 0, InvalidAngularDistance; all arguments", [SO3 + "SO3StateSpace::new"])
 h("so3_new_unit_centre", ["C12"], "proof", "complete", "the stored cone centre is a unit quaternion", [SO3 + "SO3StateSpace::new"], known_finding="KF-C12-so3-centre")
 h("so3_set_lvsf_positive", ["C06"], "proof", "complete", "set_longest_valid_segment_fraction leaves 0 < fraction <= 1 for ALL f64 arguments", [SO3 + "set_longest_valid_segment_fraction"], known_finding="KF-C06-lvsl-zero-so3")
@@ -59,16 +62,18 @@ ST = "oxmpl/src/base/states/"
 h("so2_state_new_canonical", ["C12"], "proof", "complete", "SO2State::new(v) and normalise() return an angle in [-PI,PI]; all v with |v + PI| < 4 PI (exact rem_euclid model)", [ST + "so2_state.rs::SO2State::new", ST + "so2_state.rs::SO2State::normalise"], timeout=900)
 h("so2_state_new_congruent", ["C12"], "proof", "complete", "SO2State::new(v) is congruent to v modulo 2 PI up to 4e-15; all v with |v + PI| < 4 PI", [ST + "so2_state.rs::SO2State::new"], tier="thorough", timeout=1200, optional=True)
 h("so2_state_new_canonical_all_finite", ["C12"], "proof", "complete", "SO2State::new(v) is in [-PI,PI] for ALL finite v (uses only 0 <= rem_euclid(x, m) <= m)", [ST + "so2_state.rs::SO2State::new"])
-h("so3_normalise_contract", ["C12"], "proof", "complete", "SO3State::normalise: Err(ZeroMagnitude) <==> norm < 1e-9; otherwise every component divided by the norm (parallel); all finite quaternions (sqrt/powi contract stubs)", [ST + "so3_state.rs::SO3State::normalise"])
+h("so3_normalise_zero_iff", ["C12"], "proof", "complete", "SO3State::normalise: Err(ZeroMagnitude) <==> norm < 1e-9 (the norm is the single sqrt the function computes); all finite quaternions", [ST + "so3_state.rs::SO3State::normalise"], timeout=900)
+h("so3_normalise_contract", ["C12"], "proof", "complete", "SO3State::normalise: Err(ZeroMagnitude) <==> norm < 1e-9; otherwise every component divided by the norm (parallel); all finite quaternions (sqrt/powi contract stubs)", [ST + "so3_state.rs::SO3State::normalise"], tier="thorough", timeout=2400, optional=True)
 
 
 CS = "oxmpl/src/base/spaces/compound_state_space.rs::"
 AS = "oxmpl/src/base/spaces/any_state_space.rs::"
 LAY = "bounded: layout R^1 x SO(2) (2 components); symbolic weights, bounds, states"
-h("compound_distance_law_r1_so2", ["C13", "C09"], "proof", LAY, "compound distance == sqrt(0 + sum (d_i * w_i)^2) bit for bit through real Box<dyn AnyStateSpace> dispatch and Any downcasts (no panic); resolution is the same weighted combination", [CS + "distance", CS + "get_longest_valid_segment_length", AS + "distance_dyn", AS + "get_longest_valid_segment_length_dyn"], timeout=900)
-h("compound_componentwise_r1_so2", ["C13", "C10", "C11"], "proof", LAY, "interpolate / satisfies_bounds / enforce_bounds act component by component (each component equals the component space's own result bit for bit); enforced ==> accepted", [CS + "interpolate", CS + "satisfies_bounds", CS + "enforce_bounds", AS + "interpolate_dyn", AS + "satisfies_bounds_dyn", AS + "enforce_bounds_dyn"], timeout=900)
+h("compound_distance_law_r1_so2", ["C13", "C09"], "proof", LAY, "compound distance == sqrt(0 + sum (d_i * w_i)^2) bit for bit through real Box<dyn AnyStateSpace> dispatch and Any downcasts (no panic); resolution is the same weighted combination", [CS + "distance", CS + "get_longest_valid_segment_length", AS + "distance_dyn", AS + "get_longest_valid_segment_length_dyn"], tier="thorough", timeout=3000, optional=True)
+h("compound_componentwise_r1_so2", ["C13", "C10", "C11"], "proof", LAY, "interpolate / satisfies_bounds / enforce_bounds act component by component (each component equals the component space's own result bit for bit); enforced ==> accepted", [CS + "interpolate", CS + "satisfies_bounds", CS + "enforce_bounds", AS + "interpolate_dyn", AS + "satisfies_bounds_dyn", AS + "enforce_bounds_dyn"], tier="thorough", timeout=3000, optional=True)
 SE2 = "oxmpl/src/base/spaces/se2_state_space.rs::"
-h("se2_is_compound_r2_so2", ["C13"], "proof", "bounded: unbounded SE(2) (R^2 x SO(2)); symbolic weight and states", "SE2StateSpace(w) distance / resolution / bounds check equal the compound of R^2 and SO(2) with weights (1, w) bit for bit", [SE2 + "SE2StateSpace::new", SE2 + "distance", SE2 + "get_longest_valid_segment_length", SE2 + "satisfies_bounds"], timeout=900)
+h("se2_is_compound_r2_so2", ["C13"], "proof", "bounded: unbounded SE(2) (R^2 x SO(2)); symbolic weight and states", "SE2StateSpace(w) distance / resolution / bounds check equal the compound of R^2 and SO(2) with weights (1, w) bit for bit", [SE2 + "SE2StateSpace::new", SE2 + "distance", SE2 + "get_longest_valid_segment_length", SE2 + "satisfies_bounds"], tier="thorough", timeout=3000, optional=True)
+h("compound_satisfies_lvsl_r1_r1", ["C13"], "proof", "bounded: layout R^1 x R^1 (2 components); symbolic weights, bounds, states", "compound satisfies_bounds == conjunction of the component checks, through real Box<dyn AnyStateSpace> dispatch and Any downcasts (no panic)", [CS + "satisfies_bounds", AS + "satisfies_bounds_dyn"], timeout=1200)
 h("se2_state_new_yaw_canonical", ["C12"], "proof", "complete", "SE2State::new stores a yaw in [-PI,PI]; all yaw with |yaw + PI| < 4 PI", ["oxmpl/src/base/states/se2_state.rs::SE2State::new"], timeout=600)
 
 HARNESSES = H
